@@ -30,6 +30,16 @@ pub use setup::{AgentOptions, setup};
 pub use uni::spawn_unipayload_handler;
 pub use util::process_multiple_changes;
 
+/// Entry points for the external deterministic simulator (feature `verif`).
+#[cfg(feature = "verif")]
+pub mod verif {
+    pub use super::handlers::{
+        handle_changes, handle_notifications, handle_sync, spawn_incoming_connection_handlers,
+        spawn_rtt_handler,
+    };
+    pub use super::run_root::verif_run as run;
+}
+
 pub const ANNOUNCE_INTERVAL: Duration = Duration::from_secs(300);
 pub const RANDOM_NODES_CHOICES: usize = 10;
 
